@@ -1,5 +1,6 @@
 import Drv.RecvCommon
 import OpcuaModel.Model.RecvRaw
+import OpcuaModel.Model.Gate
 /-
   Driver for C13:
     raw <rcvBuf> <maxChunkCount> <maxMessageSize> <secure 0|1|2 (2 = SignAndEncrypt)> <opening 0|1> <chan,chan,…|-> <frame>…
@@ -49,6 +50,24 @@ def rawOutText : RawOut → String
 def parseChans (s : String) : Option (List Nat) :=
   if s == "-" then some [] else (s.splitOn ",").mapM (·.toNat?)
 
+/-- `gate <ev>…`  ev = r:<req> | t:<req> | a:<req>:<0|1 OPN body> | d | o | c → locked=<0|1> delivered=<ids oldest first> queued=<n> -/
+def parseGateEv (s : String) : Option Gate.Ev :=
+  match s.splitOn ":" with
+  | ["r", q] => do pure (.register (← q.toNat?))
+  | ["t", q] => do pure (.timeout (← q.toNat?))
+  | ["a", q, o] => do pure (.arrive ⟨← q.toNat?, o == "1"⟩)
+  | ["d"] => some .dispatch
+  | ["o"] => some .openReturns
+  | ["c"] => some .close
+  | _ => none
+
+def handleGate (toks : List String) : String :=
+  match toks.mapM parseGateEv with
+  | some evs =>
+    let st := Gate.run {} evs
+    s!"locked={if st.locked then 1 else 0} delivered={",".intercalate (st.delivered.reverse.map toString)} queued={st.queue.length}"
+  | none => "bad-op"
+
 def handle : List String → String
   | "raw" :: rb :: mc :: mm :: sec :: opn :: chans :: fs =>
     match rb.toNat?, mc.toNat?, mm.toNat?, parseChans chans, parseFrames fs with
@@ -59,6 +78,7 @@ def handle : List String → String
       let outs := runRaw cfg st fs
       " ".intercalate (outs.map rawOutText ++ [heldText (runRawFinal cfg st fs).bufs])
     | _, _, _, _, _ => "bad-op"
+  | "gate" :: r => handleGate r
   | "recv" :: r => handleRecv r
   | _ => "bad-op"
 
